@@ -22,7 +22,7 @@ LEVEL_TEXT = ("Every configuration the property names is driven over generated p
               "default engine; reach counters show each configuration was executed.")
 LEVEL_NOTE = "Clean class = non-recursive programs (no finding accepted). The documented RandomOrderEngine is instantiated from the text of engine.rst."
 TECHNIQUE = "runtime differential monitor across engine configurations (seeded random choice-point order) + reference-model oracle"
-BUDGET = {"quick": 360, "thorough": 8000}
+BUDGET = {"quick": 360, "thorough": 4500}
 TIME_BUDGET = {"quick": 220, "thorough": 3300}
 CASE_TIMEOUT = 60
 WATCHDOG_FRACTION = 0.05
